@@ -50,11 +50,33 @@ pub fn shape_from_ops(ops: &[String]) -> Result<Shape, String> {
             "checkout" => { if !s.branches.contains_key(&arg) { return Err(format!("checkout of unknown branch {arg}")); } s.cur = arg; }
             "merge-ff" => { let bt = *s.branches.get(&arg).ok_or("merge of unknown branch")?; s.branches.insert(s.cur.clone(), bt); }
             "merge" => { let bt = *s.branches.get(&arg).ok_or("merge of unknown branch")?; s.parents.push(vec![tip, bt]); let id = s.parents.len() - 1; s.branches.insert(s.cur.clone(), id); }
+            // a merge commit although a fast-forward was possible (`git merge --no-ff`, the merge button of the forges)
+            "merge-noff" => { let bt = *s.branches.get(&arg).ok_or("merge of unknown branch")?; s.parents.push(vec![tip, bt]); let id = s.parents.len() - 1; s.branches.insert(s.cur.clone(), id); }
+            // one merge commit with three or more parents (`git merge b1 b2 ...`)
+            "octopus" => { let mut ps = vec![tip]; for b in arg.split(' ') { ps.push(*s.branches.get(b).ok_or("octopus merge of unknown branch")?); } s.parents.push(ps); let id = s.parents.len() - 1; s.branches.insert(s.cur.clone(), id); }
             other => return Err(format!("unknown operation {other:?}")),
         }
         s.ops.push(op.clone());
     }
     Ok(s)
+}
+
+/// Histories outside the BFS alphabet, written as operation lists: merge commits where a fast-forward was possible (two branches
+/// merging each other in turn - every commit the second merge brings in is itself a merge), criss-cross merges, octopus merges
+/// with three and four parents (as HEAD, below HEAD, below the tag), and a merge of two merges.
+pub fn special_shapes() -> Vec<Shape> {
+    let lists: [&[&str]; 9] = [
+        &["branch b1", "commit", "checkout main", "merge-noff b1", "checkout b1", "merge-noff main"],
+        &["branch b1", "commit", "checkout main", "merge-noff b1", "checkout b1", "merge-noff main", "commit"],
+        &["branch b1", "commit", "checkout main", "merge-noff b1", "checkout b1", "merge-noff main", "checkout main", "merge-noff b1"],
+        &["branch b1", "commit", "checkout main", "commit", "merge b1", "checkout b1", "merge main"],
+        &["branch b1", "commit", "checkout main", "branch b2", "commit", "checkout main", "commit", "octopus b1 b2"],
+        &["branch b1", "commit", "checkout main", "branch b2", "commit", "checkout main", "commit", "octopus b1 b2", "commit"],
+        &["branch b1", "commit", "checkout main", "branch b2", "commit", "checkout main", "octopus b1 b2", "commit", "commit"],
+        &["branch b1", "commit", "checkout main", "branch b2", "commit", "checkout main", "branch b3", "commit", "checkout main", "commit", "octopus b1 b2 b3", "commit"],
+        &["branch b1", "commit", "checkout main", "commit", "merge b1", "branch b2", "checkout b1", "commit", "checkout main", "commit", "merge b1", "checkout b2", "merge-noff main"],
+    ];
+    lists.iter().map(|l| shape_from_ops(&l.iter().map(|x| x.to_string()).collect::<Vec<_>>()).expect("special shape")).collect()
 }
 
 /// BFS over commit / branch&checkout / checkout / merge from a one-commit repository.
